@@ -7,6 +7,7 @@ from pydiverse.common import (
     Date,
     Datetime,
     Float,
+    Int,
     String,
 )
 from pydiverse.transform._internal.backend.sql import SqlImpl
@@ -189,6 +190,17 @@ with SqliteImpl.impl_store.impl_manager as impl:
     @impl(ops.is_not_nan)
     def _is_not_nan(x):
         return True
+
+    @impl(ops.truediv, Int(), Int())
+    @impl(ops.truediv, Float(), Float())
+    def _truediv(x, y):
+        # SQLAlchemy types `Integer / Integer` as Numeric; SQLite has no native decimal,
+        # so the result would come back as Decimal(38, 10): rounded to 10 decimals.
+        if not isinstance(x.type, sqa.Float):
+            x = sqa.cast(x, sqa.Double)
+        if not isinstance(y.type, sqa.Float):
+            y = sqa.cast(y, sqa.Double)
+        return x / y
 
     @impl(ops.cbrt)
     def _cbrt(x):
